@@ -27,8 +27,10 @@ from .c05 import fmt_space, fmt_mat_in, parse_mat, mat_diff, EPS
 THEOREMS = [
     'Pyiga.Props.C03.scatter_unique', 'Pyiga.Props.C03.hb_entry', 'Pyiga.Props.C03.hb_entry_same_level',
     'Pyiga.Props.C03.thb_congruence', 'Pyiga.Props.C03.sym_flag', 'Pyiga.Props.C03.level_blocks_spec',
+    'Pyiga.Props.C03.hb_entry_level', 'Pyiga.Props.C03.hb_entry_unique_block', 'Pyiga.Props.C03.interlevel_ix_covers',
+    'Pyiga.Props.C03.hb_entry_galerkin',
 ]
-MODULES = ['Pyiga.Model.TransferKnots', 'Pyiga.Model.Transfer', 'Pyiga.Model.HAssemble', 'Pyiga.Proofs.Transfer', 'Pyiga.Proofs.HAssemble', 'Pyiga.Props.C03']
+MODULES = ['Pyiga.Model.TransferKnots', 'Pyiga.Model.Transfer', 'Pyiga.Model.HAssemble', 'Pyiga.Proofs.Transfer', 'Pyiga.Proofs.ProlongateTo', 'Pyiga.Proofs.HAssemble', 'Pyiga.Proofs.HAssemble2', 'Pyiga.Props.C03']
 
 FORMS = {
     'mass': ('u*v*dx', True),
